@@ -207,6 +207,21 @@ fn gen_valid(rng: &mut Rng, max_int_digits: usize) -> String {
     if rng.chance(1, 3) {
         s.push('-');
     }
+    if rng.chance(1, 8) {
+        // an integral part made of zeros (ungrouped or grouped), or small behind leading zero groups,
+        // and a fraction that starts with zeros
+        s.push_str(rng.pick_str(&["0", "0,000", "00,000", "000,000", "0,000,000", "0,001", "00,012", "000"]));
+        if rng.chance(5, 6) {
+            s.push('.');
+            for _ in 0..rng.usize(4) {
+                s.push('0');
+            }
+            for _ in 0..rng.usize(4) {
+                s.push((b'0' + rng.below(10) as u8) as char);
+            }
+        }
+        return s;
+    }
     let nint = 1 + rng.usize(max_int_digits);
     let digits: String = (0..nint)
         .map(|i| {
@@ -473,6 +488,56 @@ fn check_in_position(pos: &str, s: &str, rec: &mut Recorder) {
     }
 }
 
+/// Positions in which the formatter must print the literal as `PrettyDecimal` prints it (value,
+/// decimals and grouping kept): the eight positions above plus a bare factor inside a
+/// parenthesised expression and a bare balance assertion.
+const PRINT_POSITIONS: &[&str] = &["amount", "rate-cost", "total-cost", "lot-rate", "lot-total", "assertion", "format", "bare-factor", "bare-divisor", "bare-assertion", "expr-term"];
+
+fn print_position_text(pos: &str, s: &str) -> String {
+    match pos {
+        "bare-factor" => format!("2024/01/01 p\n    A    ({} * 2 USD)\n    B\n", s),
+        "bare-divisor" => format!("2024/01/01 p\n    A    (7 USD / {})\n    B\n", s),
+        "bare-assertion" => format!("2024/01/01 p\n    A    3 USD = {}\n    B\n", s),
+        "expr-term" => format!("2024/01/01 p\n    A    (3 USD + {} USD)\n    B\n", s),
+        _ => in_position_text(pos, s),
+    }
+}
+
+fn check_print_in_position(pos: &str, s: &str, rec: &mut Recorder) {
+    let Verdict::Accept { .. } = num::classify(s) else { return };
+    let Ok(pd) = PrettyDecimal::from_str(s) else { return };
+    let want = pd.to_string();
+    let text = print_position_text(pos, s);
+    rec.op(&format!("format-in-position:{}", pos), &text);
+    let Some(out) = guarded(rec, || crate::checks::c05::format_text(&text)) else { return };
+    rec.count(&format!("print-position:{}", pos));
+    match out {
+        Err(e) => rec.violation(
+            "rejected-wellformed",
+            &format!("format|position={}", pos),
+            &format!("well-formed `{}` as {}: the formatter fails: {}", s, pos, e.lines().next().unwrap_or("")),
+            json!({"literal": s, "position": pos, "text": text, "error": e}),
+        ),
+        Ok(f) => {
+            // the literal must appear as a whole token
+            let is_num = |c: char| c.is_ascii_digit() || c == ',' || c == '.';
+            let found = f.match_indices(&want).any(|(i, m)| {
+                let before = f[..i].chars().next_back();
+                let after = f[i + m.len()..].chars().next();
+                !before.map(is_num).unwrap_or(false) && !after.map(is_num).unwrap_or(false)
+            });
+            if !found {
+                rec.violation(
+                    "print-in-position-differs",
+                    &format!("{}|{}", pos, if want.contains(',') { "grouped" } else { "plain" }),
+                    &format!("`{}` as {} is not printed as `{}`: {}", s, pos, want, f.lines().nth(1).unwrap_or(&f).trim()),
+                    json!({"literal": s, "position": pos, "text": text, "formatted": f, "expected_token": want}),
+                );
+            }
+        }
+    }
+}
+
 /// `okane format` must echo every accepted literal with the same value and reject files
 /// containing a malformed one (exit 1, never a signal or a different number).
 fn check_cli_echo(ctx: &Ctx, rng: &mut Rng, rec: &mut Recorder) {
@@ -623,6 +688,8 @@ impl Check for C07 {
                 }
                 let pos = POSITIONS[rng.usize(POSITIONS.len())];
                 check_in_position(pos, &s, rec);
+                let ppos = PRINT_POSITIONS[rng.usize(PRINT_POSITIONS.len())];
+                check_print_in_position(ppos, &s, rec);
                 h ^= fnv64(format!("{}{}", pos, s).as_bytes()).rotate_left(k % 61);
                 if rec.wants_sample() && k == 3 {
                     rec.sample(json!({"family": "in-position", "position": pos, "text": in_position_text(pos, &s)}));
@@ -638,7 +705,7 @@ impl Check for C07 {
         "Families: (sigma7) every string over {0,1,5,9,',','.','-'} up to the stated length and (sigma13) every string over \
          digits/comma/dot/minus up to the stated length, in batches of 512 (exhaustive, independent of the seed); (near-valid) \
          random literals of up to 45 digits / 31 decimals, half of them with one edit, one in five within a few units (or a few thousand) of 2^31, 2^32, 2^63, 2^64, 2^95, 2^96, 2^127, 2^128, 10^18, 10^28, 10^29 with the point anywhere; (in-position) literals embedded as posting \
-         amount, @ and @@ cost, {} and {{}} lot price, balance assertion, commodity format and eval argument; (cli) okane format \
+         amount, @ and @@ cost, {} and {{}} lot price, balance assertion, commodity format and eval argument, and printed by the formatter in those positions and as a bare factor / divisor / term of a parenthesised expression and as a bare balance assertion (the printed token must be what the literal's own printer gives); (cli) okane format \
          echo on files of 12 accepted literals and on one malformed literal. Oracle: independent recogniser of the C07 grammar \
          with exact (mantissa, scale) and the 96-bit/28-decimals representability bound. distinct_nontrivial counts distinct \
          batches (by content hash) containing at least one string with a digit; counters.nontrivial-strings counts the strings."
